@@ -174,3 +174,80 @@ def run_iterator_rule(ck, rule: str, functions=None, construct_prefix: str = "")
                          found=f"`{name}` bound at line {getattr(b, 'lineno', fn.lineno)}, read again at line {r.lineno}",
                          required="materialise once (list(...)) or read once")
     return n_bind
+
+
+def late_binding_sites(fn_node: ast.AST):
+    """(node, variable, kind): a lambda / generator expression / lazy map-filter that refers to the variable of the comprehension or
+    loop it is created in and is *kept* (an element or value of the comprehension's result, appended, stored) instead of being
+    consumed on the spot. Python closes over the variable, not its value: by the time the kept object runs, the variable holds the
+    last value of the iteration - every kept object then works with that one value."""
+    out = []
+    EAGER = {"list", "tuple", "sorted", "set", "frozenset", "sum", "min", "max", "any", "all", "len", "next", "dict", "str"}
+
+    def lazy_refs(expr, names):
+        """lazy sub-expressions of expr (not under an eager consumer) that mention one of names"""
+        hits = []
+
+        def walk(n, eager):
+            if isinstance(n, ast.Call) and isinstance(n.func, ast.Name) and n.func.id in EAGER:
+                for a in n.args:
+                    walk(a, True)
+                return
+            lazy = isinstance(n, (ast.Lambda, ast.GeneratorExp)) or (
+                isinstance(n, ast.Call) and isinstance(n.func, ast.Name) and n.func.id in ("filter", "map", "zip", "enumerate")) or (
+                isinstance(n, ast.Call) and ast.unparse(n.func) in ("itertools.filterfalse", "itertools.takewhile", "itertools.dropwhile",
+                                                                    "filterfalse", "takewhile", "dropwhile", "itertools.starmap", "starmap"))
+            if lazy and not eager:
+                own = set()
+                if isinstance(n, ast.Lambda):
+                    own = {a.arg for a in n.args.args}
+                used = {x.id for x in ast.walk(n) if isinstance(x, ast.Name) and isinstance(x.ctx, ast.Load)} - own
+                if isinstance(n, ast.Call):
+                    # a lazy call is only late-bound through a lambda / generator among its arguments
+                    inner = [a for a in n.args if isinstance(a, (ast.Lambda, ast.GeneratorExp))]
+                    used = set()
+                    for a in inner:
+                        own2 = {x.arg for x in a.args.args} if isinstance(a, ast.Lambda) else set()
+                        used |= {x.id for x in ast.walk(a) if isinstance(x, ast.Name) and isinstance(x.ctx, ast.Load)} - own2
+                hit = used & names
+                if hit:
+                    hits.append((n, sorted(hit)[0]))
+                return
+            for c in ast.iter_child_nodes(n):
+                walk(c, eager)
+        walk(expr, False)
+        return hits
+
+    for n in ast.walk(fn_node):
+        if isinstance(n, (ast.ListComp, ast.SetComp, ast.DictComp)):
+            names = {x.id for g in n.generators for x in ast.walk(g.target) if isinstance(x, ast.Name)}
+            elts = [n.key, n.value] if isinstance(n, ast.DictComp) else [n.elt]
+            for e in elts:
+                for node, var in lazy_refs(e, names):
+                    out.append((node, var, "comprehension"))
+        elif isinstance(n, ast.For):
+            names = {x.id for x in ast.walk(n.target) if isinstance(x, ast.Name)}
+            for st in ast.walk(n):
+                if isinstance(st, ast.Call) and isinstance(st.func, ast.Attribute) and st.func.attr in ("append", "add", "setdefault") and st.args:
+                    for node, var in lazy_refs(st.args[-1], names):
+                        out.append((node, var, "loop"))
+                elif isinstance(st, ast.Assign) and isinstance(st.targets[0], ast.Subscript):
+                    for node, var in lazy_refs(st.value, names):
+                        out.append((node, var, "loop"))
+    return out
+
+
+def run_late_binding_rule(ck, rule: str, functions):
+    from .common import where, short
+    n = 0
+    for fn in functions:
+        if fn.is_lambda:
+            continue
+        n += 1
+        for node, var, kind in late_binding_sites(fn.node):
+            ck.violation(rule, f"{short(fn)}:{var}:late-binding", where(fn, node),
+                         f"a lazily evaluated object (lambda / generator / filter / map) refers to the {kind} variable `{var}` and is kept "
+                         "beyond its iteration: the closure sees the variable, not the value it had - when the object finally runs, "
+                         f"`{var}` holds the last value, so every kept object selects the same rows",
+                         found=ast.unparse(node)[:140], required="consume on the spot (list(...)) or bind the value (lambda r, k=k: ...)")
+    return n
